@@ -66,6 +66,9 @@ fn requests() -> Vec<Req> {
         ("https://z.com/", "https://x.com/"),
         ("https://w.com/", "https://y.com/"),
         ("wss://x.com/p", "https://x.com/"),
+        // (no document outside http(s)/ws(s): C12 says such requests are not eligible for matching,
+        // C15 speaks of "document requests" and "matching rules" without naming schemes, and the
+        // engine answers check_network_request one way and get_csp_directives the other: not pinned)
     ] {
         for ty in TYPES_ALL {
             if let Ok(req) = adblock::request::Request::new(url, src, ty) {
